@@ -539,16 +539,26 @@ def gen_group(rng, nprobes):
             rel = []
             for q in p["op"]["posts"]:
                 if q["k"] == "ineq":
-                    q2 = dict(q)
-                    if rng.random() < 0.6:
-                        q2["decomp"] = not q2["decomp"]
-                    if rng.random() < 0.3:
-                        q2["b"] = q2["b"] + rng.choice([-1, 1])
-                    rel.append(q2)
+                    # the same inequality under the other diagram construction (same serialised data, another
+                    # diagram), and now and then a neighbour
+                    rel.append(dict(q, decomp=not q["decomp"]))
+                    if rng.random() < 0.4:
+                        rel.append(dict(q, b=q["b"] + rng.choice([-1, 1]), decomp=rng.random() < 0.5))
             if rel:
                 hist.insert(rng.randrange(len(hist) + 1),
                             strip({"op": {"k": "sat", "posts": vs + rel}, "kind": "sat", "stream": "logic",
                                    "dims": None, "cand": [], "note": "related"}))
+    # objects built from default arguments: an earlier caller that used (and modified) what it was handed
+    for p, _ in probes:
+        if p["kind"] == "defaults" and rng.random() < 0.7:
+            steps = [rng.choice([["use"], ["ineq0"], ["expr0", "x"], ["ineq_l", [["a", True, 2]], 1]])
+                     for _ in range(rng.randrange(1, 4))] + [["use"]]
+            hist.insert(rng.randrange(len(hist) + 1),
+                        strip({"op": {"k": "defaults", "steps": steps}, "kind": "defaults", "stream": "logic",
+                               "dims": None, "cand": [], "note": "related"}))
+        if p["kind"] == "strop" and rng.random() < 0.7:
+            h = gen_strop(rng)
+            hist.insert(rng.randrange(len(hist) + 1), strip(h))
     cases = []
     for p, _ in probes:
         hs = [h for h in hist if admissible(p, h)]
@@ -937,7 +947,7 @@ def fresh_crosscheck(ctx, out, cases, n):
 
 def run(ctx, out, replay=None):
     quick = ctx.quick()
-    ngroups = 45 if quick else 700
+    ngroups = 45 if quick else 420
     out.rule = ("(history, probe) pairs: probe = netlist load + verdict / orthogon recognition of a hard module / die "
                 "decomposition (with fixed rectangles of a netlist) / allocation + refine, griddify, uniform depth / "
                 "SAT posting sequence / legaliser Model construction / Strop / objects built from default arguments; "
